@@ -285,6 +285,50 @@ pub fn run_parts(parts: &[&dyn Harness], spec: Spec) -> i32 {
     if !all_completed {
         bound_completed = None;
     }
+    // Second regime: every tracing callsite enabled (a TRACE-level formatting subscriber writing
+    // to a sink, installed process-wide once the plain exploration is over). tarpc's code paths
+    // differ when its spans are enabled, and tracing evaluates event fields only then; the
+    // properties must hold all the same. Bounds 0 and 1, own time cap.
+    let mut trace_doc = json!({"run": false});
+    if std::env::var("MC_NO_TRACE_PASS").is_err() && violations.is_empty() && machinery.is_empty() {
+        install_trace_subscriber();
+        let cap = Instant::now() + if spec.tier == Tier::Quick { Duration::from_secs(12) } else { Duration::from_secs(240) };
+        let (mut execs, mut done_bound) = (0u64, None);
+        'outer: for b in [0u32, 1] {
+            for h in parts.iter() {
+                let r = crate::explore::explore_round(*h, b, if b == 0 { None } else { Some(cap) });
+                execs += r.stats.evaluations;
+                for f in dedupe(&r.stats.found) {
+                    if let Some(k) = known.iter().find(|k| k.signature == f.v.signature) {
+                        let _ = k;
+                        continue;
+                    }
+                    let mut m = vec![];
+                    if let Some(p) = confirm_and_write(*h, spec.prop, &f, &mut m) {
+                        // mark the replay file: it only reproduces under the subscriber
+                        if let Ok(t) = std::fs::read_to_string(&p) {
+                            if let Ok(mut d) = serde_json::from_str::<Value>(&t) {
+                                d["regime"] = json!("trace-subscriber");
+                                let _ = std::fs::write(&p, serde_json::to_string_pretty(&d).unwrap());
+                            }
+                        }
+                        println!("VIOLATION property={} replay={}", spec.prop, p.display());
+                        eprintln!("  [TRACE-level subscriber installed] {}: {}", f.v.signature, f.v.message);
+                        violations.push((f.v.signature.clone(), p));
+                    }
+                }
+                if !r.completed {
+                    break 'outer;
+                }
+            }
+            done_bound = Some(b);
+            if !violations.is_empty() {
+                break;
+            }
+        }
+        trace_doc = json!({"run": true, "executions": execs, "bound_completed": done_bound,
+            "what": "the same harnesses explored again with a process-wide TRACE-level tracing_subscriber::fmt subscriber (all callsites enabled, output discarded)"});
+    }
     {
         let mut by: BTreeMap<String, Vec<String>> = BTreeMap::new();
         for (sig, msg) in &spec.extra_failures {
@@ -327,6 +371,7 @@ pub fn run_parts(parts: &[&dyn Harness], spec: Spec) -> i32 {
         "determinism_rechecks": tot.rechecks,
         "known_findings_seen": known_seen,
         "threads": nthreads(),
+        "all_tracing_callsites_enabled_pass": trace_doc,
     });
     for (k, v) in &spec.extra {
         cov[k] = v.clone();
@@ -366,6 +411,17 @@ pub fn run_parts(parts: &[&dyn Harness], spec: Spec) -> i32 {
     } else {
         1
     }
+}
+
+/// Installs, once per process, a subscriber that enables every tracing callsite and discards
+/// the output.
+pub fn install_trace_subscriber() {
+    static ONCE: std::sync::Once = std::sync::Once::new();
+    ONCE.call_once(|| {
+        let sub = tracing_subscriber::fmt().with_max_level(tracing::Level::TRACE).with_writer(std::io::sink).finish();
+        let _ = tracing::subscriber::set_global_default(sub);
+        tracing::callsite::rebuild_interest_cache();
+    });
 }
 
 pub fn write_evidence(prop: &str, ev: &Value) {
